@@ -130,6 +130,12 @@ def lex_suite(ctx, n, extra_texts=()):
         first = next((i for i in range(max(len(want), len(got or []))) if i >= len(want) or i >= len(got or []) or want[i] != got[i]), 0)
         ctx.breaks.append(dict(kind='correspondence', name='lex: Hid/Lexer.lean vs hidc.lexer', detail=repr(dict(
             text=t, impl=want[first:first + 2], model=(got or [])[first:first + 2]))[:1500]))
+        # the token stream (tokens, values, spans, error position) is what the lexing properties speak of: a text on which the
+        # implementation's stream differs from the verified model's is a concrete failing input, like in the parse and tc suites
+        bad.sort(key=lambda x: len(x[1]))
+        for k, t, want, got in bad[:2]:
+            ctx.violations.append(dict(what='lexer departs from the verified model: implementation %r, model %r' % (want[:3], (got or [])[:3]),
+                                       kind='LEX-MODEL', source=t, args=[], config={}, implementation=want[:40], model=(got or [])[:40]))
     ctx.say('lexer correspondence: %d texts, %d mismatches' % (len(texts), len(bad)))
     return bad
 
